@@ -45,13 +45,15 @@ def c08(c):
     c.trusted += [EXTRACT_TB,
                   "absence of panics and hangs in the Go code (index arithmetic, slice bounds) is NOT a theorem: the model is total by construction; "
                   "it is covered by the differential run only (no recovered panic, no slow call on any generated input)",
-                  "Go harness cmd/httpparse"]
+                  "Go harness cmd/httpparse; cmd/httpe2e -part c08 (real nbhttp engines: the request behind malformed bytes never reaches the handler, the connection is closed - every IOMod, plain and TLS)"]
     c.assumptions += ["strconv.ParseInt re-modelled for bases 10/16 with 63-bit range; tested against the original by the differential run"]
     args = ["-n", n(c, 2500, 60000)]
     if c.tier == "thorough":
         args.append("-allcuts")
     c.harness("httpparse", args, overlay=True, model=HTTP_MODEL, timeout=3000)
     c.harness("httpref", ["-n", n(c, 300, 5000)], overlay=True, model=HTTP_MODEL, timeout=3000)
+    # engine level: a parse error ends the connection in every read loop (IOMod x plain/TLS)
+    c.harness("httpe2e", ["-part", "c08"], overlay=True, timeout=1200)
     c.finish()
 
 
